@@ -152,6 +152,73 @@ def build_validate(ck, src, obs=None):
     return {"eng": eng, "hyps": hyps, "goals": {g: z3.Implies(pc, f) for g, f in G.items()}, "reach": {"reach_valid": z3.And(pc, valid), "reach_rejected": z3.And(pc, z3.Not(valid))}}
 
 
+def build_batch(ck, same_user, src, obs=None):
+    """batch_update with two requests (same peer or two different peers): each request is validated against the state left by the
+    previous one and applied iff Valid -- so a duplicated (peer, number) inside one batch is accepted exactly once"""
+    eng = ck.engine(unwind=40) if obs is None else ck.meta_engine()
+    uval, ku = user(src, "u")
+    oval, ko = user(src, "o")
+    probes = {"cand": ku, "other": ko}
+    m0 = src.map("M", 256, counter_template(eng), probes)
+    req = [{"seq": src.bv(f"q{i}.seq", 64), "hash": src.bytes(f"q{i}.hash", 32), "ts": src.bv(f"q{i}.ts", 64)} for i in range(2)]
+    users = [(uval, ku), (uval, ku) if same_user else (oval, ko)]
+    stats_vals = [src.bv("stats." + n, 64) for n in STATS]
+    hyps = list(src.hyps) + [ku != ko, counter_inv(eng, m0, ku), counter_inv(eng, m0, ko)] + [z3.ULT(s, bv(1 << 20, 64)) for s in stats_vals]
+    # room for two accepted entries in the modelled history
+    for k in (ku, ko):
+        hyps.append(z3.Implies(z3.Select(m0.present, k), cfield(eng, sel(m0, k), "sequence_history").len == 0))
+    info = eng.enum_info("SequenceValidationResult")
+    if obs is None:
+        st = State()
+        sysv, cref = system_value(eng, st, m0, stats_vals)
+        rsys = eng.alloc(st, sysv)
+        reqs = VSeq([mk_struct(eng, "BatchUpdateRequest", {"user_id": users[i][0], "sequence": req[i]["seq"], "message_hash": req[i]["hash"], "timestamp": req[i]["ts"]}) for i in range(2)], bv(2, 64))
+        eng.clock_readings = []
+        st2, out = run_async(eng, ck.fn_in("MonotonicCounterSystem", "batch_update"), [rsys, reqs], st)
+        okk = out.idx == bv(0, 8)
+        res = out.pay[0][0]
+        af = eng.struct_adt("BatchUpdateResult").field_index("applied")
+        rf = eng.struct_adt("BatchUpdateResult").field_index("result")
+        applied = [res.elems[i].f[af] for i in range(2)]
+        valid = [res.elems[i].f[rf].idx == bv(info.index("Valid"), 8) for i in range(2)]
+        nres = res.len
+        m1 = eng.load(st2, cref)
+        sys_reads = [r for r in eng.clock_readings if r.ty == "SystemTime"]
+        now = src.pin("now.s", sys_reads[0].f[0])
+        hyps += [h for h in src.hyps if h not in hyps]
+        for r in sys_reads[1:]:
+            hyps.append(r.f[0] == sys_reads[0].f[0])
+        pc = st2.pc
+    else:
+        pc = z3.BoolVal(True)
+        okk = z3.BoolVal(bool(obs["ok"]))
+        applied = [z3.BoolVal(bool(a)) for a in obs["applied"]]
+        valid = [z3.BoolVal(r == "Valid") for r in obs["results"]]
+        nres = bv(len(obs["applied"]), 64)
+        m1 = obs_counters(eng, obs, "post", probes)
+        now = src.bv("now.s", 64)
+    L = {k: z3.If(z3.Select(m0.present, kk), cfield(eng, sel(m0, kk), "last_valid_sequence"), bv(0, 64)) for k, kk in (("u", ku), ("o", ko))}
+    one = lambda b: z3.If(b, bv(1, 64), bv(0, 64))  # noqa: E731
+    exp0 = z3.And(req[0]["seq"] == L["u"] + 1, window(req[0]["ts"], now))
+    if same_user:
+        exp1 = z3.And(req[1]["seq"] == L["u"] + one(exp0) + 1, window(req[1]["ts"], now))
+    else:
+        exp1 = z3.And(req[1]["seq"] == L["o"] + 1, window(req[1]["ts"], now))
+    G = {}
+    G["each_request_is_accepted_iff_next_in_order_after_the_previous_ones"] = z3.And(okk, nres == 2, applied[0] == exp0, applied[1] == exp1, valid[0] == applied[0], valid[1] == applied[1])
+    G["a_number_submitted_twice_in_one_batch_is_accepted_at_most_once"] = z3.Implies(z3.And(z3.BoolVal(same_user), req[0]["seq"] == req[1]["seq"]), z3.Not(z3.And(applied[0], applied[1])))
+    fin_u = cfield(eng, sel(m1, ku), "last_valid_sequence")
+    if same_user:
+        G["counters_advance_by_the_number_of_accepted_requests"] = z3.And(z3.Select(m1.present, ku), fin_u == L["u"] + one(applied[0]) + one(applied[1]),
+                                                                        z3.Select(m1.present, ko) == z3.Select(m0.present, ko),
+                                                                        z3.Implies(z3.Select(m0.present, ko), cfield(eng, sel(m1, ko), "last_valid_sequence") == L["o"]))
+    else:
+        G["counters_advance_by_the_number_of_accepted_requests"] = z3.And(z3.Select(m1.present, ku), fin_u == L["u"] + one(applied[0]), z3.Select(m1.present, ko),
+                                                                        cfield(eng, sel(m1, ko), "last_valid_sequence") == L["o"] + one(applied[1]))
+    return {"eng": eng, "hyps": hyps, "goals": {g: z3.Implies(pc, f) for g, f in G.items()},
+            "reach": {"reach_both_applied": z3.And(pc, applied[0], applied[1]), "reach_second_rejected": z3.And(pc, applied[0], z3.Not(applied[1]))}}
+
+
 def build_cleanup(ck, src, obs=None):
     """cleanup_old_sequences (async, await-free) on a finite counter map {u, o}: it may trim histories but never forgets a peer's
     high-water mark (otherwise old numbers would be accepted again)"""
@@ -219,8 +286,28 @@ def register_all(ck, tier):
 
     ck.guarded("cleanup_old_sequences", reg2)
 
+    for same in (True, False):
+        def reg3(same=same):
+            params = {"same_user": same}
+            tag = "batch_update[" + ("same peer" if same else "two peers") + "]"
+            src = Src()
+            R = build_batch(ck, same, src)
+            rp = harness.make_replayer(ck, "monotonic_counter", "batch", lambda s, obs: build_batch(ck, same, s, obs), params)
+            ck.register_src("batch", params, src)
+            for g, f in R["goals"].items():
+                ck.prove(f"{tag}/{g}", R["eng"], R["hyps"], f, on_sat=rp, meta={"goal": g})
+            for g, f in R["reach"].items():
+                ck.reach(f"{tag}/{g}", R["eng"], R["hyps"], f)
+            ck.side(f"{tag}/side", R["eng"], R["hyps"], on_sat=rp)
+            ck.single_critical_section(tag, R["eng"], R["hyps"], on_sat=None)
+            ck.out.samples.append({"obligation": tag + " (async)", "goals": list(R["goals"])})
+
+        ck.guarded("batch_update[" + ("same peer" if same else "two peers") + "]", reg3)
+
 
 def rebuild(ck, driver, params):
+    if driver == "batch":
+        return lambda s, obs: build_batch(ck, params["same_user"], s, obs)
     if driver == "cleanup":
         return lambda s, obs: build_cleanup(ck, s, obs)
     return lambda s, obs: build_validate(ck, s, obs)
